@@ -256,4 +256,71 @@ theorem write_n (F : Faults) (w : W) (p : Bytes) (hg : w.Good) (hok : (w.write F
           obtain ⟨hfl, _⟩ := bflush_appended F _ hfill.good
           exact writeRest_n F _ _ p _ (by omega) hfl.good.atEnd hok
 
+/-! ### the dry run of the early-check strategy -/
+
+theorem revert_exact : ∀ fs : List WField, (∃ f ∈ fs, (f.num == tsFieldNum) = true) →
+    ∃ ts, fs[tsIndex fs]? = some ts ∧ revertTs (tsIndex fs) ts (removeFirst tsFieldNum fs) = fs
+  | [], h => by obtain ⟨f, hf, _⟩ := h; cases hf
+  | f :: fs, h => by
+    by_cases hf : (f.num == tsFieldNum) = true
+    · refine ⟨f, ?_, ?_⟩
+      · simp [tsIndex, hf]
+      · simp [tsIndex, hf, removeFirst, revertTs]
+    · have hex : ∃ g ∈ fs, (g.num == tsFieldNum) = true := by
+        obtain ⟨g, hg, hgn⟩ := h
+        rcases List.mem_cons.mp hg with rfl | hg'
+        · exact absurd hgn hf
+        · exact ⟨g, hg', hgn⟩
+      have hne : fs.isEmpty = false := by
+        obtain ⟨g, hg, _⟩ := hex
+        cases fs with
+        | nil => cases hg
+        | cons _ _ => rfl
+      obtain ⟨ts, h1, h2⟩ := revert_exact fs hex
+      refine ⟨ts, ?_, ?_⟩
+      · simp only [tsIndex, hf, hne, Bool.false_eq_true, if_false, List.getElem?_cons_succ]; exact h1
+      · simp only [tsIndex, hf, hne, Bool.false_eq_true, if_false, removeFirst, revertTs, List.take_succ_cons,
+          List.drop_succ_cons, List.cons_append]
+        rw [← revertTs] ; rw [h2]
+
+theorem compressed_has_ts (arch tsRef : Nat) (m : WMsg) (h : (compressTs arch tsRef m).2.isSome = true) :
+    ∃ f ∈ m.fields, (f.num == tsFieldNum) = true := by
+  unfold compressTs at h
+  cases hfind : m.fields.find? (·.num == tsFieldNum) with
+  | none =>
+    have : tsOf arch m = u32Invalid := by simp [tsOf, hfind]
+    simp [this] at h
+  | some f => exact ⟨f, List.mem_of_find?_eq_some hfind, by have := List.find?_some hfind; simpa using this⟩
+
+/-- one message of the dry run: it moves the encoder state and counts exactly the bytes the real pass writes,
+and it leaves the message as it found it -/
+theorem dryMessage_eq (o : Opts) (s : EncState) (m : WMsg) :
+    dryMessage o s m = ((encodeMsg o s m).1, (encodeMsg o s m).2.length, m) := by
+  rw [encodeMsg_parts]
+  unfold dryMessage
+  refine Prod.ext rfl (Prod.ext ?_ ?_)
+  · simp only
+    cases (encodeMsgParts o s m).2.1 <;> simp
+  · simp only
+    by_cases hc : (o.compress && (compressTs o.arch s.tsRef m).2.isSome) = true
+    · rw [if_pos hc]
+      simp only [Bool.and_eq_true] at hc
+      obtain ⟨ts, h1, h2⟩ := revert_exact m.fields (compressed_has_ts _ _ m hc.2)
+      rw [h1]; simp only [h2]
+    · rw [if_neg hc]
+
+/-- DRY RUN = REAL RUN: `calculateDataSize` stores into the header exactly the number of bytes (mod 2^32) that
+`encodeMessages` will write from the same encoder state, and hands the messages to the second pass unchanged -/
+theorem dryPass_eq (o : Opts) : ∀ (s : EncState) (ds : Nat) (ms : List WMsg), ds < 4294967296 →
+    dryPass o s ds ms = ((ds + (encodeMsgs o s ms).length) % 4294967296, ms)
+  | s, ds, [], h => by simp [dryPass, encodeMsgs]; omega
+  | s, ds, m :: ms, h => by
+    unfold dryPass
+    rw [dryMessage_eq, encodeMsgs_cons]
+    simp only
+    rw [dryPass_eq o _ _ ms (Nat.mod_lt _ (by decide))]
+    simp only [List.length_append]
+    congr 1
+    omega
+
 end Fit.Writer
